@@ -10,10 +10,12 @@
 package main
 
 import (
+	"bytes"
 	"encoding/hex"
 	"encoding/json"
 	"fmt"
 	"math/big"
+	"strings"
 	"time"
 
 	"github.com/youchainhq/go-youchain/common"
@@ -28,7 +30,12 @@ import (
 
 const crashKey = "handler-crashed-on-well-formed-message:HandleMsg"
 
+// proofs that only the owner of the validator key can make (equal / opposite addends in ProofToHash)
+const forgedKey = "handler-crashed-on-owner-forged-vrf-proof:HandleMsg"
+
 var (
+	vrfMh2   *ucon.MessageHandler // a second node: what the first one relays must be acceptable to it
+	vrfRelay *relayed
 	vrfMh    *ucon.MessageHandler
 	vrfSeed  = common.Hash{0x5e, 0xed}
 	vrfStake = big.NewInt(1000)
@@ -45,6 +52,25 @@ func vrfSetup() {
 		big.NewInt(1000), big.NewInt(1000), 0, 0, 0, params.ValidatorOnline)
 	getVal := func(round *big.Int, addr common.Address, lb params.LookBackType) (*state.Validator, bool) { return val, false }
 	vrfMh = ucon.VerifC14Handler(hKey, getVal, vrfSeed, vrfStake, vrfTotal, vrfTh, vrfTh)
+	vrfMh2 = ucon.VerifC14Handler(hKey, getVal, vrfSeed, vrfStake, vrfTotal, vrfTh, vrfTh)
+	vrfRelay = watchRelay(ucon.VerifC14Mux(vrfMh))
+}
+
+func runVrfHandleMsg2(data []byte) (res, pan string) {
+	vrfSetup()
+	func() {
+		defer func() {
+			if x := recover(); x != nil {
+				pan = fmt.Sprint(x)
+			}
+		}()
+		if err := vrfMh2.HandleMsg(data, time.Now()); err != nil {
+			res = "reject"
+		} else {
+			res = "accept"
+		}
+	}()
+	return
 }
 
 type proofShape struct {
@@ -74,6 +100,20 @@ func proofShapes() []proofShape {
 	}{{"0", new(big.Int)}, {"N", n}, {"N+1", new(big.Int).Add(n, big.NewInt(1))}, {"2^256-1", max}} {
 		out = append(out, proofShape{"scalar-s=" + sc.n, setScalar(0, sc.v)}, proofShape{"scalar-t=" + sc.n, setScalar(32, sc.v)})
 	}
+	// proofs only the owner of the key can make: t = s*k (the two addends of [t]G + [s]pk are
+	// the same point), t = -s*k (they are opposite: the sum is the point at infinity)
+	forged := func(neg bool) func([]byte) []byte {
+		return func(h []byte) []byte {
+			sv := new(big.Int).SetBytes(h[0:32])
+			t := new(big.Int).Mul(sv, hKey.D)
+			if neg {
+				t.Neg(t)
+			}
+			t.Mod(t, n)
+			return setScalar(32, t)(h)
+		}
+	}
+	out = append(out, proofShape{"owner-forged-t=s*k", forged(false)}, proofShape{"owner-forged-t=-s*k", forged(true)})
 	tag := func(b byte) func([]byte) []byte {
 		return func(h []byte) []byte { p := append([]byte{}, h...); p[64] = b; return p }
 	}
@@ -98,6 +138,8 @@ var msgKinds = []struct {
 	{5, "next", ucon.NextIndex}, {6, "certificate", ucon.Certificate}}
 
 // a correctly encoded and signed consensus message of the given kind whose credential is shape(honest proof)
+var vrfBlockExtra = 0 // bytes of header.Extra of the proposed block (a proposal of >= 4 KiB is ~35 transfers)
+
 func vrfMessage(code uint8, vt ucon.VoteType, shape proofShape, round uint64, index uint32) ([]byte, error) {
 	signer, err := secp256k1VRF.NewVRFSigner(hKey)
 	if err != nil {
@@ -123,7 +165,7 @@ func vrfMessage(code uint8, vt ucon.VoteType, shape proofShape, round uint64, in
 			return nil, e
 		}
 		h := &types.Header{Number: rd, Subsidy: new(big.Int), GasRewards: new(big.Int), Time: now, Consensus: cd,
-			Extra: []byte{}, SlashData: []byte{}, ChtRoot: []byte{}, BltRoot: []byte{}, Validator: []byte{}, Signature: []byte{}, Certificate: []byte{}}
+			Extra: bytes.Repeat([]byte{0x5a}, vrfBlockExtra), SlashData: []byte{}, ChtRoot: []byte{}, BltRoot: []byte{}, Validator: []byte{}, Signature: []byte{}, Certificate: []byte{}}
 		payload, err = rlp.EncodeToBytes(types.NewBlockWithHeader(h))
 	default:
 		bh := common.Hash{7}
@@ -160,7 +202,11 @@ func runVrfHandleMsg(data []byte) (res, pan string) {
 func (g *genState) vrfObs(kind, shape string, data []byte, res, pan string) {
 	if pan != "" {
 		g.res.Count("vrf:" + kind + ":PANIC")
-		g.hit(hit{What: crashKey, Type: "handler:HandleMsg", Mode: "vrf-handler", Bytes: hex.EncodeToString(data),
+		key := crashKey
+		if strings.HasPrefix(shape, "owner-forged") || (shape == "corpus" && strings.Contains(kind, "owner-forged")) {
+			key = forgedKey
+		}
+		g.hit(hit{What: key, Type: "handler:HandleMsg", Mode: "vrf-handler", Bytes: hex.EncodeToString(data),
 			Note: "handler crashed on a well-formed " + kind + " message (credential " + shape + "): " + pan})
 		return
 	}
@@ -186,9 +232,28 @@ func (g *genState) vrfCampaign() {
 				g.res.Count("vrf:build-failed")
 				continue
 			}
+			orig := append([]byte{}, data...)
 			res, pan := runVrfHandleMsg(data)
-			g.vrfObs(mk.name, sh.name, data, res, pan)
+			g.vrfObs(mk.name, sh.name, orig, res, pan)
+			if pan == "" {
+				g.handlerOwnership(orig, data, res, vrfRelay, runVrfHandleMsg2)
+			}
 			g.res.Count("vrf_shape:" + sh.name)
+		}
+	}
+	// proposals of 4 KiB and more: the envelope's Payload is a large byte field of the decoded message
+	for i, extra := range []int{3500, 4096, 5000, 70000} {
+		vrfBlockExtra = extra
+		data, err := vrfMessage(2, ucon.Propose, proofShapes()[0], 5000+uint64(i), 1)
+		vrfBlockExtra = 0
+		if err != nil {
+			continue
+		}
+		orig := append([]byte{}, data...)
+		res, pan := runVrfHandleMsg(data)
+		g.vrfObs("big-block", "honest", orig, res, pan)
+		if pan == "" {
+			g.handlerOwnership(orig, data, res, vrfRelay, runVrfHandleMsg2)
 		}
 	}
 	g.res.Extra["vrf_verifier_calls_reached"] = ucon.VerifC14VerifyCalls - before
